@@ -124,17 +124,25 @@ VIS int sched_wait_parked(volatile int *done, int timeout_ms)
 
 VIS void sched_generic_events(int on) { generic_park = on; }
 
-/* a fork handler of the library needs the lock the parked thread holds: the thread runs on until it has given up all of the
- * library's locks and is parked again there, so that it is still stopped inside its call when the fork really happens */
+/* a fork handler of the library needs a lock the parked thread holds: the thread runs on only until the waiting thread has got THAT
+ * lock (it may still hold others, which the child will then inherit), at the latest until it holds none of the library's locks, and
+ * is parked again there -- so it is still stopped inside its call when the fork really happens */
+static volatile int waiter_blocked;
+static __thread int just_unlocked;
 static void release_until_unlocked(void)
 {
-    if (park_state == 1) { park_state = 3; park_word = 1; fwake(&park_word); }
+    if (park_state == 1) { waiter_blocked = 1; park_state = 3; park_word = 1; fwake(&park_word); }
 }
 
 static void park_event(void)
 {
     if (park_state == 3 && park_thread_set && pthread_equal(pthread_self(), park_thread) && !in_child) {
-        if (lock_depth == 0) {
+        if (waiter_blocked && lock_depth > 0 && just_unlocked) {
+            /* just released something: give the waiting thread a moment to take it */
+            for (int i = 0; i < 50 && waiter_blocked; i++) usleep(1000);
+        }
+        just_unlocked = 0;
+        if (lock_depth == 0 || !waiter_blocked) {
             park_word = 0;
             park_state = 1;
             parked_word = 1; fwake(&parked_word);
@@ -375,7 +383,9 @@ VIS int pthread_mutex_lock(pthread_mutex_t *m)
             if (r != EBUSY) { return r; }
             /* another thread (e.g. a fork handler) needs the lock the parked thread holds: let it go on until it gives the lock up */
             release_until_unlocked();
-            return real_lock(m);
+            r = real_lock(m);
+            waiter_blocked = 0;
+            return r;
         }
         int r = real_lock(m);
         if (r == 0) lock_depth++;
@@ -391,7 +401,7 @@ VIS int pthread_mutex_unlock(pthread_mutex_t *m)
     init_real();
     void *ra = __builtin_return_address(0);
     if (mode == MODE_OFF || !from_lib2(ra, m) || in_child) return real_unlock(m);
-    if (mode == MODE_PARK) { int r = real_unlock(m); if (r == 0 && lock_depth > 0) lock_depth--; park_event(); return r; }
+    if (mode == MODE_PARK) { int r = real_unlock(m); if (r == 0 && lock_depth > 0) lock_depth--; just_unlocked = 1; park_event(); just_unlocked = 0; return r; }
     if (my_index < 0) return real_unlock(m);
     return coop_unlock(m);
 }
